@@ -126,7 +126,7 @@ def run(ctx):
         nv = _bl.run_parallel([(lambda c=c, i=i: _bl.tlc_expect_violation(ctx, "Remote.tla", c, i)) for c, i in BROKEN], maxpar=3)
         ctx.cov["broken_variants_rejected"] = nv
     # 3. + 4. behaviours
-    sb = ctx.tlc_behaviours("Remote.tla", "c35_stmt_sim.cfg", num=q(60, 500), depth=18)
+    sb = ctx.tlc_behaviours("Remote.tla", "c35_stmt_sim.cfg", num=q(30, 250), depth=18)
     # the pusher's handle on a file remote is its own NomsBlockStore (its cached root is refreshed by AddTableFilesToManifest), on an
     # http remote a gRPC client (it is not): two generator configs (constant RefreshModes)
     gb = [t for t in (trim(b) for b in ctx.tlc_behaviours("Remote.tla", "c35_gate_sim.cfg", num=q(40, 400), depth=36, seed=ctx.seed + 500)) if len(t) >= 8]
